@@ -208,4 +208,33 @@ theorem reference_decodes_to_target (l : Labels) (off addr : Nat) (rs : List (Pa
   rw [h4, ofLeBytes_leBytes _ _ hp2]
   exact ⟨C05.write_decodes _ _ _ _ h3, hp1⟩
 
+/-! ## the property is FALSE of histories that continue after a failed commit (known finding `retry-after-failed-commit-*`)
+
+`reference_decodes_to_target` speaks about the references that are in the registry when the patch loop runs. The loop iterates
+`Vec::drain(..)`: when it returns early (a reference without definition, a distance that does not fit) the failing reference and every
+static reference behind it are gone. The theorem below is the negation of C01 for such histories, stated for the model of
+`VecAssembler` (the `asm` stream shows the implementation behaves the same, and `Assembler::encode_relocs` has the same loop): after the
+failing commit, WHATEVER labels are defined afterwards, the next commit succeeds without touching a byte — the failing reference keeps its
+placeholder. The check replays the witness on the implementation (lib/c01.py, retry histories) and reports it as a known finding. -/
+
+theorem retry_after_failed_commit_publishes_unpatched (a : VecAsm) (b : List Byte) (m : List PatchLoc) (e : Err)
+    (herr : a.core.error = none) (hdyn : a.core.dynamics = [])
+    (hloop : patchStatics a.core.labels 0 a.base a.core.statics a.ops [] = (b, m, .err e)) :
+    a.commit.2 = .err e ∧ a.commit.1.ops = b ∧
+    ∀ l' : Labels,
+      let retry : VecAsm := { a.commit.1 with core := { a.commit.1.core with labels := l' } }
+      retry.commit = (retry, .ok) := by
+  simp [VecAsm.commit, Core.encodeRelocs, herr, hloop, hdyn, patchStatics, patchDynamics]
+
+/-- non-vacuity: `jmp >l` (a 4-byte x64 field after the opcode byte) with `l` not defined yet -/
+def retryWitness : VecAsm :=
+  { ops := [0xE9#8, 0#8, 0#8, 0#8, 0#8],
+    core := { statics := [(⟨5, 4, 0, ⟨.p4, .relative⟩, 0⟩, 7, 1)] } }
+
+example : retryWitness.core.error = none ∧ retryWitness.core.dynamics = [] ∧
+    patchStatics retryWitness.core.labels 0 retryWitness.base retryWitness.core.statics retryWitness.ops [] =
+      (retryWitness.ops, [], .err (.unknown (.loc 7))) := by
+  refine ⟨rfl, rfl, ?_⟩
+  simp [retryWitness, patchStatics, Labels.resolveStatic]
+
 end DynasmVerif.C01
